@@ -9,5 +9,8 @@ CHECK = {
              quick={"checks": 3000, "shards": 1, "cap": 600},
              thorough={"checks": 20000, "shards": 16, "cap": 2400},
              fuzz=[dict(name='FuzzVerif_C01_Record', seconds=240)]),
+        unit("server-canaries", "vault", ["vault/c01_test.go"], "^TestVerif_C01_",
+             quick={"checks": 80, "shards": 1, "cap": 900, "steps": 25},
+             thorough={"checks": 500, "shards": 16, "cap": 3000, "steps": 60}),
     ],
 }
